@@ -485,6 +485,11 @@ def table_wire(spec):
     except Exception as e:
         return {"skip": "could not build the input table: " + type(e).__name__}
     c1 = list(t1.cols())
+    if un:
+        op = "sub"          # wire label only: an operator without special paths (the oracle table carries the unary results)
+    if refl and op == "add" and spec["form"] == "scalar" and type(val(spec["st"], spec["s"])) is int \
+            and any(c.schema() is not None and c.schema().kind is datetime.date for c in c1):
+        return {"skip": "int + date column: not the day arithmetic of `dates + n` (Python's int + date raises)"}
     case = {"op": op, "form": spec["form"],
             "cols": [{"xs": [I.uid(x) for x in c], "dt": dtype_wire(c.schema())} for c in c1]}
     py, days, ints, seen = [], [], set(), set()
@@ -495,7 +500,7 @@ def table_wire(spec):
         key = (I.uid(x), I.uid(y))
         if isinstance(y, int) and (spec["form"] != "scalar" or type(y) is int):
             ints.add(I.uid(y))
-            if not un and col.schema() is not None and col.schema().kind is datetime.date and op == "add" and ("d",) + key not in seen:
+            if not un and not refl and col.schema() is not None and col.schema().kind is datetime.date and op == "add" and ("d",) + key not in seen:
                 seen.add(("d",) + key)
                 days.append([key[0], key[1], G.res_code(I, lambda: x + datetime.timedelta(days=y))])
         if key in seen:
@@ -504,6 +509,8 @@ def table_wire(spec):
         py.append([key[0], key[1], G.res_code(I, lambda: f(x, y))])
     if spec["form"] == "scalar":
         s = val(spec["st"], spec["s"])
+        if refl and op == "mod" and isinstance(s, (str, bytes)):
+            return {"skip": "str % table is Python's string formatting, not the reflected operator"}
         case["s"] = I.uid(s)
         if type(s) is int:
             ints.add(I.uid(s))
